@@ -4,12 +4,15 @@
 // full read; harness-side expansion of symmetric storage; "must throw" for the documented failures; and for
 // every damaged file "std::exception or a structurally valid result" (c19_oracle.hpp), never a crash.
 // Helpers: c19_files.hpp (scratch dir, header parsers, regions), c19_oracle.hpp, c19_roundtrip.hpp, c19_faults.hpp.
+#ifndef C19_FAULT_ONLY
 #include "c19_roundtrip.hpp"
+#endif
 #include "c19_faults.hpp"
 
 using namespace vf;
 using namespace c19;
 
+#ifndef C19_FAULT_ONLY // the sanitized enumeration target (c19_io_san) compiles only the damaged-file props
 template <class F>
 static std::string must_throw(F &&f, const std::string &what) {
     try { f(); } catch (const std::exception &e) { return e.what(); }
@@ -189,8 +192,9 @@ static void prop_documented(Tape &t, Ctx &c) {
     }
 }
 
-// ------------------------------------------------------------------ candidate defects found on the current tree (each case is excluded
-// under its finding id; VF_INCLUDE_KNOWN=1 lifts the exclusion so that the witness under known/ fails)
+// ------------------------------------------------------------------ defects found by this harness: kinds 2,3,5,6 were fixed in /repo (b9cdd1e, b8ea7d5, f4ed298, 4171d32)
+// and are asserted; kinds 0,1 (surplus data lines) stay a listed known finding, excluded under F-io-surplus-lines
+// (VF_INCLUDE_KNOWN=1 lifts the exclusion so that the witnesses under known/ fail)
 static void prop_candidates(Tape &t, Ctx &c) {
     int kind = static_cast<int>(t.u(0, 6));
     std::string p = scratch_file("cand.dat");
@@ -221,7 +225,6 @@ static void prop_candidates(Tape &t, Ctx &c) {
         write_bytes(p, f.str());
         c.desc << "array file with size line '-" << n << " -" << m << "'";
         c.label("cand:negative-array-size");
-        if (c.known("F-io-mm-dense-negative")) return;
         must_throw([&] { read_dense_as<double>(p); }, "negative sizes in an array file");
         break; }
     case 3: { // binary dense: one flipped bit in a size field makes chunk*m wrap around
@@ -233,7 +236,6 @@ static void prop_candidates(Tape &t, Ctx &c) {
         write_bin_dense<size_t, double>(p, fn, fm, v);
         c.desc << "binary dense file, stored sizes n=" << fn << " m=" << fm << " with " << v.size() << " values";
         c.label("cand:dense-size-overflow");
-        if (c.known("F-io-bin-dense-size")) return;
         BdRead<size_t, double> R;
         try { R = read_bd<size_t, double>(p); } catch (const std::exception &) { return; }
         validate_bd(R, -1, -1, "read_dense with a corrupted size field");
@@ -244,7 +246,6 @@ static void prop_candidates(Tape &t, Ctx &c) {
         write_bytes(p, f.str());
         c.desc << "symmetric coordinate file " << n << "x" << m << " with the single entry (" << i << ",1)";
         c.label("cand:symmetric-nonsquare");
-        if (c.known("F-io-mm-symmetric-nonsquare")) return;
         SpRead<ptrdiff_t, double> R;
         try { R = read_sp<ptrdiff_t, double>(p); } catch (const std::exception &) { return; }
         validate_sp(R, -1, -1, "non-square symmetric file accepted");
@@ -255,7 +256,6 @@ static void prop_candidates(Tape &t, Ctx &c) {
         io::mm_write(fresh(p), v.data(), n, 1);
         c.desc << "dense char array of " << n << " values, first=" << static_cast<int>(v[0]);
         c.label("cand:char-write");
-        if (c.known("F-io-char-write")) return;
         DnRead<char> R;
         try { R = read_dn<char>(p); } catch (const std::exception &e) { VF_REQUIRE(false, "file written by mm_write<char> is rejected by mm_reader: " << e.what()); }
         VF_REQUIRE(R.val == v, "char values differ after the round trip");
@@ -263,10 +263,13 @@ static void prop_candidates(Tape &t, Ctx &c) {
     }
 }
 
+#endif
+
 static std::vector<Prop> all_props() {
     if (const char *d = getenv("C19_DUMP_CORPUS")) { dump_corpus(d); exit(0); }
     typedef long long i64;
     std::vector<Prop> P = {
+#ifndef C19_FAULT_ONLY
         Prop("rt_mm_sparse_double", prop_rt_mm_sparse<double>, 700, 8000, 100, 12, {1}, 2, 8),
         Prop("rt_mm_sparse_float", prop_rt_mm_sparse<float>, 300, 3000, 100, 12, {1}, 1, 2),
         Prop("rt_mm_sparse_complex", prop_rt_mm_sparse<cplx>, 400, 4000, 100, 20, {1}, 1, 4),
@@ -286,6 +289,7 @@ static std::vector<Prop> all_props() {
         Prop("rt_bin_dense_complex", prop_rt_bin_dense<size_t, cplx>, 250, 2500, 100, 14, {1}, 1, 2),
         Prop("documented", prop_documented, 1500, 15000, 100, 8, {1}, 2, 4),
         Prop("candidates", prop_candidates, 200, 1000, 100, 4, {1}, 1, 1),
+#endif
         Prop("fault", prop_fault, 1500, 15000, 100, 1, {1}, 1, 2),
         Prop("fuzz_edits", prop_fuzz_edits, 1500, 30000, 100, 1, {1}, 2, 8),
         Prop("fuzz_raw", prop_fuzz_raw, 200, 2000, 100, 3, {1}, 1, 1),
